@@ -80,8 +80,9 @@ def run_worker(a):
     out = {"harness_error": None}
     try:
         try:
-            if a.worker == 0:
-                replay_regressions(mod, ctx)
+            # every worker replays the saved regressions: workers differ in PYTHONHASHSEED, and set
+            # iteration order inside the code under test is an input dimension for some of them
+            replay_regressions(mod, ctx)
             if ctx.failure is None:
                 mod.run(ctx)
         except Failure:
@@ -216,7 +217,8 @@ def run_parent(a):
     violations = 0
     lines = []
     if failures:
-        os.makedirs(os.path.join(HERE, "replays"), exist_ok=True)
+        rpdir = os.environ.get("VERIF_REPLAY_DIR") or os.path.join(HERE, "replays")
+        os.makedirs(rpdir, exist_ok=True)
         failures.sort(key=lambda t: len(json.dumps(t[2]["case"])))
         seen_sigs = set()
         for w, phs, fl in failures:
@@ -227,7 +229,7 @@ def run_parent(a):
             violations += 1
             path = fl.get("regression_file")
             if not path:
-                path = os.path.join(HERE, "replays", f"{a.prop}-seed{a.seed}-w{w}.json")
+                path = os.path.join(rpdir, f"{a.prop}-seed{a.seed}-w{w}.json")
                 with open(path, "w", encoding="utf-8") as f:
                     json.dump({"property": a.prop, "seed": a.seed, "worker": w,
                                "pythonhashseed": phs, "violations": fl["violations"],
@@ -267,8 +269,9 @@ def run_parent(a):
     }
     if errors:
         ev["coverage"]["harness_errors"] = errors[:3]
-    os.makedirs(os.path.join(HERE, "evidence"), exist_ok=True)
-    with open(os.path.join(HERE, "evidence", f"{a.prop}.json"), "w", encoding="utf-8") as f:
+    evdir = os.environ.get("VERIF_EVIDENCE_DIR") or os.path.join(HERE, "evidence")
+    os.makedirs(evdir, exist_ok=True)
+    with open(os.path.join(evdir, f"{a.prop}.json"), "w", encoding="utf-8") as f:
         json.dump(ev, f, indent=1, sort_keys=True, ensure_ascii=True)
         f.write("\n")
 
